@@ -165,16 +165,23 @@ def main():
                   'source_commits': [], 'add_only': True},
         'engines': [
             {'name': 'clustersim', 'path': 'vsim/sim.py',
-             'serves_properties': [p for p in ids if CHECKS.get(p, {}).get('engine') == ENGINE_L3],
-             'kind_free_text': ENGINE_L3},
+             'serves_properties': [p for p in ids if ENGINE_L3 in CHECKS.get(p, {}).get('engine', '')],
+             'kind_free_text': ENGINE_L3 + ' (real Supervisor 4.2.5 and supvisors code over a simulated OS layer, '
+                               'virtual clocks and transport; randomised discrete-event scheduler, failpoints)'},
+            {'name': 'scripted-peers', 'path': 'vsim/l2.py',
+             'serves_properties': [p for p in ids if ENGINE_L2 in CHECKS.get(p, {}).get('engine', '')] + ['C16'],
+             'kind_free_text': ENGINE_L2 + ' (proxy steps scheduled one message at a time by the driver, handshake '
+                               'latency model, messages injected through supervisor.sendRemoteCommEvent)'},
             {'name': 'single', 'path': 'vsim/single.py',
-             'serves_properties': [p for p in ids if CHECKS.get(p, {}).get('engine') in (ENGINE_L1, ENGINE_L2)],
-             'kind_free_text': 'one real booted instance serving reference-model monitors and message fuzzing'}],
+             'serves_properties': [p for p in ids if ENGINE_L1 in CHECKS.get(p, {}).get('engine', '')],
+             'kind_free_text': ENGINE_L1}],
         'checks': checks,
         'notes': 'Runtime monitoring only (DESIGN.md). exit 0 held / 1 VIOLATION / 2 INCONCLUSIVE. '
-                 'known_findings.json lists genuine defects by mechanism key.',
-        'not_applicable': [{'property_id': p, 'reason': 'check not built yet (work in progress, DESIGN.md section 8)'}
-                           for p in ids if p not in CHECKS]}
+                 'known_findings.json lists genuine defects by mechanism key (KNOWN-FINDING lines, exit 0). '
+                 './check <ID> [--tier quick|thorough] [--seed N]; VERIF_SEED / VERIF_TIER honoured; VERIF_REPO selects '
+                 'the tree under test (default /repo). ./selftest <patch> <ID> runs a check against a patched scratch '
+                 'copy. DESIGN.md section 11 lists what was built, fixed, found and corrected.',
+        'not_applicable': [{'property_id': p, 'reason': 'no check registered'} for p in ids if p not in CHECKS]}
     with open(os.path.join(HERE, 'MANIFEST.json'), 'w') as fd:
         json.dump(manifest, fd, indent=1)
     print('checks:', [c['property_id'] for c in checks])
